@@ -40,6 +40,45 @@ prop("C01", "exploration",
      {"quick": {"runs": 24000, "max_secs": 150}, "thorough": {"runs": 700000, "max_secs": 1200}},
      ["bitar's temporary_file_override is never used (it cannot work: DESIGN.md O1)", "the anonymous temp file of create_archive is opened by the tempfile crate through raw syscalls and is not seen by the seam"])
 
+FAM = ("a drawn archive (as C01) plus drawn seeds (0..3: edits of the source -- insert/delete/replace/move/duplicate/truncate/append/swap --, the source itself, empty, unrelated, "
+       "chunk-permuted), seed files and/or stdin in drawn order, a drawn prior output (absent / existing file / faked block device >= source; related, permuted, unrelated, shorter, longer), "
+       "--seed-output or not, through bita clone (syscall seam) or the library flow of examples/local-cloner.rs (SimFile/SimSource), local or simulated HTTP, under drawn pool schedules and read/body fragmentation; no faults. ")
+
+prop("C02", "exploration",
+     FAM + "Oracle: the clone succeeds and the output is byte-identical to the source (regular files also have the source's length). Truncated-hash collisions between different chunks (only possible for hash length < 8) are recognised and exempted. "
+     "Non-trivial: at least one seed, at least two chunks, and the seeds supply some but not all chunks; distinct: trace hash + scenario shape.",
+     {"quick": {"runs": 20000, "max_secs": 150}, "thorough": {"runs": 600000, "max_secs": 1200}},
+     ["--verify-output is not combined with a block device larger than the source (it always reports a mismatch there: DESIGN.md O2)"])
+prop("C03", "exploration",
+     "two families, drawn 50/50. (a) " + FAM + "always with --seed-output / reorder_in_place on a prior output obtained by editing or permuting the source. "
+     "(b) synthetic layouts at small scope driven into CloneOutput::reorder_in_place directly: 1..8 chunk identities with sizes from {1,2,3,5,8}; the source is a sequence of 0..10 identities, "
+     "the prior output a sequence of 0..11 identities or garbage blobs (indexed or not), hash length in {4,8,16,33,64}; afterwards exactly the chunks the output still asks for are fed. "
+     "Oracle: no panic/error; output == source (file length too for regular files); nothing left missing; a chunk present in the prior output and needed by the source is never left to be fetched. "
+     "Non-trivial: a non-empty prior output, at least one write and (b) at least one reusable identity; distinct: (a) trace hash + shape, (b) the layout itself.",
+     {"quick": {"runs": 60000, "max_secs": 150}, "thorough": {"runs": 3000000, "max_secs": 1500}},
+     ["the during-run 'not destroyed before copied' clause is decided through its consequence: a destroyed reusable chunk is copied as garbage (in-place copies are not re-hashed) and shows in the final comparison"],
+     exhaustive_note="family (b) is sampled, biased small; the evidence counts distinct layouts reached")
+prop("C06", "exploration",
+     FAM + "Observed: every byte range requested from the archive (HTTP: the scripted server's log; local CLI: read(2) on the archive fd at the syscall seam; local library: reads of the archive SimFile). "
+     "Oracle: the multiset of bytes read equals the header region once plus the stored range of every chunk that the reference chunker does not find in a seed or in the prior output (when it is the seed), each once; in particular no byte of an available chunk is read. "
+     "Non-trivial: at least two chunks and a seed or in-place prior output; distinct: trace hash + shape.",
+     {"quick": {"runs": 20000, "max_secs": 150}, "thorough": {"runs": 600000, "max_secs": 1200}})
+prop("C13", "exploration",
+     FAM + "Observed: every write to the output as (position, bytes) -- lseek/write on the output fd at the syscall seam, or the SimFile log; writes that continue where the previous one ended are coalesced. "
+     "Oracle: every extent tiles exactly into source chunk locations and carries those chunks' bytes; no location is written twice; no location that the reference scan of the prior output found already holding the right chunk is written; nothing at or beyond the source length. "
+     "Non-trivial: at least two chunks and a seed or in-place prior output; distinct: trace hash + shape (incl. number of writes).",
+     {"quick": {"runs": 20000, "max_secs": 150}, "thorough": {"runs": 600000, "max_secs": 1200}})
+prop("C11", "exploration",
+     "C01's compress runs (CLI from file / stdin, library; all schedules; metadata maps incl. empty and binary values). Oracle: the independent decoder checks magic, LE dictionary size, dictionary decodes, chunk-data offset == header length, "
+     "Blake2b-512 trailer, file length == end of the last stored chunk, descriptors == the unique chunks of the reference chunker's chunk list in order of first occurrence (hash prefix, size), stored back-to-back from 0, stored size <= source size, "
+     "every payload decodes (raw iff sizes equal) to a chunk with that hash, rebuild order == the chunk sequence, recorded size/checksum/parameters/hash length/compression/metadata == requested; bitar's Archive accessors and bita info --metadata-key report the same. "
+     "Non-trivial: at least two chunks; distinct: trace hash + (chunks, unique chunks, metadata entries).",
+     {"quick": {"runs": 24000, "max_secs": 150}, "thorough": {"runs": 700000, "max_secs": 1200}})
+prop("C12", "exploration",
+     "one (source, options) scenario is compressed 2..4 times by the CLI (file or stdin drawn each time) and 2..3 times by the library, each under an independently drawn pool schedule, buffered-chunks value in {1,2,3,8,64}, "
+     "verbosity and input fragmentation. Oracle: all archives of a writer are byte-identical. Non-trivial: the source is longer than one average chunk; distinct: trace hash + archive size + run counts.",
+     {"quick": {"runs": 6000, "max_secs": 150}, "thorough": {"runs": 200000, "max_secs": 1200}})
+
 NOT_APPLICABLE = {
     "C10": "pure function of its input: quantifies over pairs of byte strings and configurations only; given C09 (same chunks under every read schedule) there is no schedule, clock, fault, crash or interleaving for a simulator to own. The mechanism it rests on (boundary decisions depend on the trailing window alone) is checked by C09's reference chunker, which is how F5 was found.",
 }
@@ -55,3 +94,19 @@ text("C09", "deterministic simulation: seeded search over read schedules (fragme
 text("C01", "deterministic simulation: seeded search over blocking-pool schedules and read fragmentations of the full compress -> clone pipeline (CLI and library, local and simulated HTTP), judged by an independent archive decoder",
      "Seeded exploration of end-to-end round trips under every completion order of hash/compress/write tasks the scheduler can produce (from an infinitely fast to an infinitely slow pool). Found F1 and F4 before they were fixed. Sampling, not proof.",
      "Trusted: RefFormat decoder (hand-written protobuf codec), blake2, brotli-decompressor, zstd, lzma; real: all of bitar and the CLI modules, futures-util, clap; port: tokio::fs::File; stub: blocking pool, stdin, reqwest/network.")
+
+CLONE_NOTE = "Trusted: RefFormat decoder, reference chunker (scan of seeds / prior output), blake2; real: bitar + CLI modules + futures-util + clap; port: tokio::fs::File; stub: blocking pool, stdin, network, block device (regular file presented as S_IFBLK)."
+text("C02", "deterministic simulation: seeded search over seed sets, seed orders, pool schedules and read fragmentations of clone (CLI at the syscall seam, library on simulated files)",
+     "Seeded exploration; every successful clone must equal the source. Sampling, not proof.", CLONE_NOTE)
+text("C03", "deterministic simulation: seeded search over prior output contents -- real chunking of edited files through --seed-output, and small-scope synthetic layouts driven into reorder_in_place on a simulated file with drawn read/write fragmentation",
+     "Seeded exploration, dense at small scope (<= 8 identities, sizes {1,2,3,5,8}); found F2 before it was fixed. Sampling, not proof; the evidence counts distinct layouts.", CLONE_NOTE)
+text("C06", "deterministic simulation: observation of every archive read at the simulated server / syscall seam / simulated file, compared with a reference clone model",
+     "Seeded exploration with an exact multiset oracle over archive bytes; found F3 (block devices re-download everything) before it was fixed. Sampling, not proof.", CLONE_NOTE)
+text("C13", "deterministic simulation: observation of every output write at the syscall seam / simulated file, compared with a reference clone model",
+     "Seeded exploration with an exact oracle over (position, bytes) of every write; found F3's rewrite of in-place chunks on block devices. Sampling, not proof.", CLONE_NOTE)
+text("C11", "deterministic simulation: archives written under seeded pool schedules judged by an independent decoder and reference chunker",
+     "Seeded exploration; the decoder is written from header.rs' table and the .proto, so a consistent change of writer and reader is still caught. Sampling, not proof.",
+     "Trusted: RefFormat (hand-written protobuf codec), reference chunker, blake2, brotli-decompressor, zstd, lzma; real: bitar writer, CLI writer, bitar reader (accessors), info_cmd; stub: blocking pool, stdin.")
+text("C12", "deterministic simulation: the same compression repeated under independently seeded schedules, buffering levels and input deliveries; byte comparison",
+     "Seeded exploration over schedules: from an infinitely fast to an infinitely slow blocking pool, FIFO or drawn completion order. Found F4 (schedule-dependent truncated archive) before it was fixed. Sampling, not proof.",
+     "Real: both writers, futures-util buffered(); port: tokio::fs::File; stub: blocking pool, stdin; the library's anonymous temp file is a real file outside the seam.")
